@@ -690,7 +690,7 @@ func main() {
 		out := &shardOut{Counters: map[string]int64{}, MinBound: 99}
 		per := 30 * time.Second
 		if tier == "thorough" {
-			per = 5 * time.Minute
+			per = 90 * time.Second
 		}
 		for si, sc := range scen {
 			if si%n != i {
@@ -699,6 +699,9 @@ func main() {
 			b := 1
 			if tier == "thorough" {
 				b = 3
+				if len(sc.Beh) >= 3 {
+					b = 1 // the length-3 sequences are many (17^3 and their pipelined variants): deviation bound 1
+				}
 			}
 			if sc.Mode == "mitm-tls" {
 				b--
@@ -780,7 +783,7 @@ func main() {
 	rep.Coverage["traces_validated_against_impl"] = rep.Counter("executions")
 	rep.Coverage["bound_completed"] = minBound
 	rep.Coverage["exhaustive"] = rep.Incomplete == ""
-	rep.Coverage["bounds"] = fmt.Sprintf("%d scenarios: plain mode with all behaviour sequences (17 behaviours incl. combinations: errors with one- and multi-line messages, skip round trip combined with the other context marks in both orders, a RoundTripper answering on a clone of the request) up to length %d, blind CONNECT x 6 behaviours, MITM with plaintext / TLS inside x CONNECT behaviours x inner behaviours, optional second concurrent connection; every schedule with <= %d deviations (one less for TLS scenarios)", len(scen), map[string]int{"quick": 2, "thorough": 3}[tier], map[string]int{"quick": 1, "thorough": 3}[tier])
+	rep.Coverage["bounds"] = fmt.Sprintf("%d scenarios: plain mode with all behaviour sequences (17 behaviours incl. combinations: errors with one- and multi-line messages, skip round trip combined with the other context marks in both orders, a RoundTripper answering on a clone of the request) up to length %d, blind CONNECT x 6 behaviours, MITM with plaintext / TLS inside x CONNECT behaviours x inner behaviours, optional second concurrent connection; every schedule with <= %d deviations (one less for TLS scenarios; sequences of three exchanges: <= 1)", len(scen), map[string]int{"quick": 2, "thorough": 3}[tier], map[string]int{"quick": 1, "thorough": 3}[tier])
 	rep.Coverage["explanation"] = "each execution runs the real proxy.go/context.go over simnet under the gosim scheduler with recording modifiers; hook martian.VerifLiveContexts (add-only, build tag verif) counts live request-to-context associations"
 	rep.Assumptions = []string{"round trips go through a synchronous harness RoundTripper (which validates header fields like http.Transport)", "TLS inside the tunnel uses crypto/tls unmodified on simnet connections", "unsynchronised accesses (context/session id generation, context table) are covered by the auxiliary free-running -race pass (sampling)"}
 	raceIters := "30"
